@@ -205,3 +205,142 @@ fn tx_forwarder_serialize_contract() {
 		}
 	}
 }
+
+// ---- end to end into the REAL serde_json serializer, for documents of concrete shape ------------------
+// (serde_json writes literals through write_all, which CBMC handles when the document shape is concrete)
+
+static mut WLOG: [u8; 24] = [0; 24];
+static mut WPOS: usize = 0;
+static mut WRITER_FAILS_AT: usize = 99;
+struct LogW;
+impl std::io::Write for LogW {
+	fn write(&mut self, buf: &[u8]) -> std::io::Result<usize> { self.write_all(buf)?; Ok(buf.len()) }
+	fn write_all(&mut self, buf: &[u8]) -> std::io::Result<()> {
+		let mut i = 0;
+		while i < buf.len() {
+			unsafe {
+				if WPOS >= WRITER_FAILS_AT { return Err(std::io::ErrorKind::StorageFull.into()); }
+				if WPOS < 24 { WLOG[WPOS] = buf[i]; }
+				WPOS += 1;
+			}
+			i += 1;
+		}
+		Ok(())
+	}
+	fn flush(&mut self) -> std::io::Result<()> { Ok(()) }
+}
+fn run_script(script: &[u8], depth: u8) -> Result<(), Error<serde_json::Error, DeErr>> {
+	unsafe { SCRIPT_ON = true; DE_MAY_FAIL = false; let mut i = 0; while i < script.len() { SCRIPT[i] = script[i]; i += 1; } }
+	let mut ser = serde_json::Serializer::new(LogW);
+	transcode(&mut ser, MockDe { depth })
+}
+fn written_is(expect: &[u8]) -> bool {
+	unsafe { if WPOS != expect.len() { return false; } let mut i = 0; while i < expect.len() { if WLOG[i] != expect[i] { return false; } i += 1; } true }
+}
+
+/// [bool, null] -> exactly `[true,null]` / `[false,null]`: element order, separators, end bracket.
+#[kani::proof]
+#[kani::unwind(14)]
+fn tx_json_e2e_seq() {
+	let r = run_script(&[3, 2, 1, 5], 1);
+	let ok = r.is_ok(); std::mem::forget(r);
+	assert!(ok);
+	let b = unsafe { DE_LOG[2].1 } != 0;
+	assert!(if b { written_is(b"[true,null]") } else { written_is(b"[false,null]") }, "JSON text differs from the document the deserializer produced");
+}
+
+/// {"k": bool} -> exactly `{"k":true}` / `{"k":false}`: key before value, string key kept a string.
+#[kani::proof]
+#[kani::unwind(14)]
+fn tx_json_e2e_map() {
+	let r = run_script(&[4, 1, 6, 1], 1);
+	let ok = r.is_ok(); std::mem::forget(r);
+	assert!(ok);
+	let b = unsafe { DE_LOG[4].1 } != 0;
+	assert!(if b { written_is(b"{\"k\":true}") } else { written_is(b"{\"k\":false}") }, "JSON text differs from the document the deserializer produced");
+}
+
+/// {null: null}: the target cannot represent the key; the failure is the serializer's own and is reported as such.
+#[kani::proof]
+#[kani::unwind(14)]
+fn tx_json_e2e_unrepresentable_key_blames_serializer() {
+	let r = run_script(&[4, 1, 5, 5], 1);
+	match &r {
+		Ok(()) => assert!(false, "JSON accepted a null map key"),
+		Err(Error::De(_)) => assert!(false, "a value the target cannot represent was reported as an input error"),
+		Err(Error::Ser(s, _)) => { assert!(s.is_data() || s.is_syntax(), "not serde_json's own refusal"); assert!(!s.is_io()); }
+	}
+	std::mem::forget(r);
+	assert!(written_is(b"{"), "bytes after the refused key");
+}
+
+/// `[true,{"k":null}]` with a writer that starts failing at ANY byte k of the output: the result is
+/// Error::Ser carrying the writer's I/O error (never Ok, never an input error) and the bytes the writer
+/// accepted are exactly the first k bytes of the fault-free output.
+#[kani::proof]
+#[kani::unwind(20)]
+fn tx_json_e2e_writer_fault_at_any_byte() {
+	let expect = b"[true,{\"k\":null}]";
+	let k: usize = kani::any();
+	kani::assume(k < expect.len());
+	unsafe { WRITER_FAILS_AT = k; FIXED_BOOLS = true; }
+	let r = run_script(&[3, 2, 1, 4, 1, 6, 5], 2);
+	match &r {
+		Ok(()) => assert!(false, "a writer fault was swallowed"),
+		Err(Error::De(_)) => assert!(false, "a writer fault was reported as an input error"),
+		Err(Error::Ser(s, _)) => assert!(s.is_io(), "the serializer error does not carry the writer's I/O error"),
+	}
+	std::mem::forget(r);
+	unsafe {
+		assert!(WPOS == k, "writer accepted bytes after it started failing");
+		let mut i = 0; while i < k { assert!(WLOG[i] == expect[i], "bytes accepted before the fault are not a prefix of the fault-free output"); i += 1; }
+	}
+	kani::cover!(k == 5, "fault at the separator between elements");
+	kani::cover!(k == 10, "fault at the ':' between key and value");
+	kani::cover!(k == 16, "fault at the closing bracket");
+}
+
+// ---- end to end into the REAL rmp_serde serializer ------------------------------------------------------
+fn run_script_msgpack(script: &[u8], depth: u8) -> Result<(), Error<rmp_serde::encode::Error, DeErr>> {
+	unsafe { SCRIPT_ON = true; DE_MAY_FAIL = false; let mut i = 0; while i < script.len() { SCRIPT[i] = script[i]; i += 1; } }
+	let mut ser = rmp_serde::Serializer::new(LogW);
+	transcode(&mut ser, MockDe { depth })
+}
+
+/// [u64 v, bool b] -> 0x92, the SMALLEST MessagePack encoding of v (every 64-bit value), then 0xc3 / 0xc2:
+/// the integer stays an integer with the identical value, order kept.
+#[kani::proof]
+#[kani::unwind(14)]
+fn tx_msgpack_e2e_seq_u64_bool() {
+	let r = run_script_msgpack(&[3, 2, 2, 1], 1);
+	let ok = r.is_ok(); std::mem::forget(r);
+	assert!(ok);
+	let v = unsafe { DE_LOG[2].1 };
+	let b = unsafe { DE_LOG[4].1 } != 0;
+	let w = unsafe { &*std::ptr::addr_of!(WLOG) };
+	assert!(w[0] == 0x92, "array header");
+	// decode the integer back, independently of rmp
+	let (val, n): (u64, usize) = match w[1] {
+		m if m < 0x80 => (m as u64, 1),
+		0xcc => (w[2] as u64, 2),
+		0xcd => (((w[2] as u64) << 8) | w[3] as u64, 3),
+		0xce => (((w[2] as u64) << 24) | ((w[3] as u64) << 16) | ((w[4] as u64) << 8) | w[5] as u64, 5),
+		0xcf => { let mut x = 0u64; let mut i = 0; while i < 8 { x = (x << 8) | w[2 + i] as u64; i += 1; } (x, 9) }
+		_ => { assert!(false, "not a MessagePack unsigned integer"); (0, 0) }
+	};
+	assert!(val == v, "integer value changed on its way to the MessagePack output");
+	assert!(w[1 + n] == if b { 0xc3 } else { 0xc2 }, "second element");
+	assert!(unsafe { WPOS } == 2 + n, "nothing else written");
+	kani::cover!(n == 9 && v > i64::MAX as u64, "integer above i64::MAX keeps its value");
+	kani::cover!(n == 1);
+}
+
+/// {"k": null} -> 0x81 0xa1 'k' 0xc0
+#[kani::proof]
+#[kani::unwind(14)]
+fn tx_msgpack_e2e_map() {
+	let r = run_script_msgpack(&[4, 1, 6, 5], 1);
+	let ok = r.is_ok(); std::mem::forget(r);
+	assert!(ok);
+	assert!(written_is(&[0x81, 0xa1, b'k', 0xc0]));
+}
